@@ -50,6 +50,9 @@ const std::vector<std::string>& block_texts()
         // literals beyond what the C library can represent (strtod/strtol set errno and nothing clears it)
         "double zdd = 1e-400; double zde = 1e400; int zbig = 99999999999999999999;",
         "gi0 < 99999999999999999999 || gi0 > 1e-400",
+        // words that are keywords in queries only, used as ordinary names in a model
+        "bool control; int strategy = 1; int simulate, inf, sup, bounds, under, sat; int deadlock;",
+        "control + strategy > simulate",
     };
     return v;
 }
@@ -63,6 +66,7 @@ const std::vector<int>& block_parts()
         S_DECLARATION, S_INVARIANT,   S_PROBABILITY, S_EXPRESSION,  S_DECLARATION, S_LOCAL_DECL,  S_DECLARATION,
         S_DECLARATION, S_LOCAL_DECL,  S_DECLARATION, S_LOCAL_DECL,  S_DECLARATION, S_DECLARATION,
         S_DECLARATION, S_GUARD,
+        S_DECLARATION, S_EXPRESSION,
     };
     return v;
 }
